@@ -25,6 +25,7 @@
 #include "bls12_381/curve.hpp"
 #include "bls12_381/decomposition.hpp"
 #include "bls12_381/wnaf.hpp"
+#include <type_traits>
 #include "wkdibe/api.hpp"
 #include "lqibe/api.hpp"
 
